@@ -2,6 +2,8 @@ package sim
 
 import (
 	"fmt"
+	"sync/atomic"
+	"time"
 )
 
 // WatchdogAbort is panicked from inside a yield point when a run has executed more yields
@@ -34,10 +36,18 @@ type Env struct {
 	obs     uint64
 	OpObs   []uint64
 	permLog uint64
+
+	// simulated clock (P-time): what the library reads instead of the wall clock. It advances
+	// with the yield points that have passed (under a scheduler: those of all parties, so time
+	// passes while a party is parked), at a per-run rate drawn from the party's seed.
+	seed       uint64
+	clockTick  int64 // ns per yield point; -1: not drawn yet
+	clockExtra int64 // ns added by simulated sleeps
+	ClockReads uint64
 }
 
 func NewEnv(st *Stats, relax map[string]bool, seed uint64) *Env {
-	return &Env{Stats: st, Relax: relax, Local: ForkSeed(seed, "local")}
+	return &Env{Stats: st, Relax: relax, Local: ForkSeed(seed, "local"), seed: seed, clockTick: -1}
 }
 
 // SetWatchdog bounds the number of yields this party may execute (0: unbounded).
@@ -128,6 +138,57 @@ func libHook(site int32) {
 	}
 }
 
+var simEpoch = time.Date(2026, 1, 1, 0, 0, 0, 0, time.UTC)
+
+func currentEnv() *Env {
+	if s := activeSched; s != nil {
+		return s.envs[s.cur]
+	}
+	return activeEnv
+}
+
+// libClock is the library's time.Now while a simulation runs.
+func libClock() time.Time {
+	e := currentEnv()
+	if e == nil {
+		return time.Now()
+	}
+	if e.clockTick < 0 {
+		e.clockTick = []int64{0, 100, 10_000, 1_000_000, 40_000_000}[ForkSeed(e.seed, "clock").Intn(5)]
+	}
+	e.ClockReads++
+	if e.Stats != nil {
+		e.Stats.Probe("library_read_the_clock")
+	}
+	return simEpoch.Add(time.Duration(int64(e.Yields())*e.clockTick + e.clockExtra))
+}
+
+func libSleep(d time.Duration) {
+	if e := currentEnv(); e != nil {
+		e.clockExtra += int64(d)
+	}
+}
+
+// ProcessExit is what os.Exit / log.Fatal* in the library turn into while a simulation runs.
+type ProcessExit struct {
+	Code int
+	Msg  string
+}
+
+func (p ProcessExit) Error() string {
+	return fmt.Sprintf("the library ended the process (exit status %d): %s", p.Code, p.Msg)
+}
+
+var processExits int32
+
+// ProcessExits: how often the library has tried to end the process so far.
+func ProcessExits() int { return int(atomic.LoadInt32(&processExits)) }
+
+func libExit(code int, msg string) {
+	atomic.AddInt32(&processExits, 1)
+	panic(ProcessExit{code, msg})
+}
+
 func libPerm(n int) []int {
 	var e *Env
 	if s := activeSched; s != nil {
@@ -154,6 +215,9 @@ func Activate(e *Env) {
 	activeSched = nil
 	setHook(libHook)
 	setPerm(libPerm)
+	setClock(libClock)
+	setSleep(libSleep)
+	setExit(libExit)
 }
 
 func Deactivate() {
@@ -164,6 +228,9 @@ func Deactivate() {
 	activeSched = nil
 	setHook(nil)
 	setPerm(nil)
+	setClock(nil)
+	setSleep(nil)
+	setExit(nil)
 }
 
 // PermLog is a digest of the map-order permutations drawn by this party.
